@@ -309,7 +309,7 @@ func checkPaced(c PacedCase, o *vf.Obs) error {
 			return fail("call %s arrived with %v left until its deadline, more than the gun's timeout", step, call.Timeout)
 		}
 		if call.Timeout < T-slack {
-			return fail("call %s arrived with only %v left until its deadline (deadline exceeded on the client after that); the gun's timeout is a request timeout and counts from the start of the call - nominally %d ms of the scenario (sleeps, earlier calls) had passed before it",
+			return fail("call %s arrived with only %v left until its deadline; the gun's timeout is the timeout of one request and counts from the start of the call - nominally %d ms of the scenario (sleeps, earlier calls) had passed before this call",
 				step, call.Timeout.Round(time.Millisecond), before)
 		}
 	}
